@@ -59,7 +59,7 @@ def miri_programs(tier, seed):
 def run_miri(name, flags, args, outdir):
     out = os.path.join(outdir, f"miri-{name}.json")
     env = build.env_offline({"MIRIFLAGS": f"{MIRI_BASE} {flags}".strip()})
-    cmd = ["cargo", "+nightly", "miri", "run", "--offline", "--target-dir", os.path.join(build.BUILD, "t-miri"), "--"] + args + ["--out", out]
+    cmd = build._alt(["cargo", "+nightly", "miri", "run", "--offline", "--target-dir", os.path.join(build.BUILD, "t-miri"), "--"] + args + ["--out", out])
     t0 = time.time()
     try:
         r = subprocess.run(cmd, cwd=build.HARNESS, env=env, stdout=subprocess.PIPE, stderr=subprocess.PIPE, timeout=1500)
@@ -83,7 +83,7 @@ def miri_reports(err):
         first = b.splitlines()[0]
         if first.startswith("aborting") or first.startswith("could not") or "warnings emitted" in first:
             continue
-        fns = re.findall(r"\d+: (<?llfree::[^\n]+)\n\s+at (/repo/[^\s:]+:\d+)", b)[:5]
+        fns = re.findall(r"\d+: (<?llfree::[^\n]+)\n\s+at (" + re.escape(build.REPO) + r"/[^\s:]+:\d+)", b)[:5]
         where = " < ".join(f"{f.strip()} ({w})" for f, w in fns)
         out.append((first.strip(), where))
     return out
@@ -93,7 +93,7 @@ def sanitizer_reports(err, marker):
     out = []
     for m in re.finditer(marker + r"[^\n]*", err):
         tail = err[m.start():m.start() + 6000]
-        fr = re.search(r"#\d+ 0x[0-9a-f]+ in (\S*llfree\S*)[^\n]*?(/repo/[^\s:]+:\d+)?", tail)
+        fr = re.search(r"#\d+ 0x[0-9a-f]+ in (\S*llfree\S*)[^\n]*?(" + re.escape(build.REPO) + r"/[^\s:]+:\d+)?", tail)
         where = (fr.group(1) + (" " + fr.group(2) if fr.group(2) else "")) if fr else ""
         out.append((m.group(0).strip(), where))
     return out
